@@ -132,7 +132,7 @@ class Tracer:
     def site(self, frame):
         code = frame.f_code
         fn = code.co_filename
-        text = linecache.getline(fn, frame.f_lineno).strip()
+        text = linecache.getline(fn, frame.f_lineno).strip() if frame.f_lineno else ""
         qual = getattr(code, "co_qualname", code.co_name)
         return {
             "file": os.path.relpath(os.path.realpath(fn), self.pkg),
